@@ -93,6 +93,9 @@ type Ctx struct {
 
 // NewCtx creates a context for repo.
 func NewCtx(repo, verifDir, tier string) *Ctx {
+	if verifDir != "" {
+		AnchorFile = filepath.Join(verifDir, "anchors.json")
+	}
 	return &Ctx{Repo: repo, VerifDir: verifDir, Tier: tier, progs: map[string]*Program{}, loadErr: map[string]error{}, cache: map[string]any{}}
 }
 
